@@ -165,6 +165,7 @@ def solve_one(i):
                         res.update(result="proved", backend=res["backend"] + f" ({label})", secs=round(time.time() - t0, 3)); return res
             except z3.Z3Exception:
                 pass
+        relaxed = None
         for phase, tmo in (("quick", first), ("refute", None), ("full", budget)):
             if phase == "refute":
                 if not opts.get("refute", True): continue
@@ -173,6 +174,10 @@ def solve_one(i):
                     res["detail"] += f" [z3 exception in refutation pass: {str(ex)[:80]}]"; r = None
                 if r is not None:
                     res.update(result="refuted", witness=r[0], detail=f"bounded refutation pass: sat with sequence lengths <= {r[1]}, spec functions transparent, lemma axioms dropped")
+                    if isinstance(r[0], dict) and r[0].get("relaxed_candidate") and budget > first:
+                        # only a candidate (hypotheses were dropped to find it): the full attempt still gets its turn, so that a loaded machine
+                        # (short first attempts timing out) cannot turn a provable obligation into a candidate refutation
+                        relaxed = dict(res); continue
                     break
                 continue
             if phase == "full" and budget <= first: break
@@ -186,7 +191,7 @@ def solve_one(i):
                     res["detail"] += f" [z3 exception: {str(ex)[:80]}]"; r = z3.unknown
                 if r != z3.unknown: break
             if r == z3.unsat:
-                res.update(result="proved"); break
+                res.update(result="proved", witness=None, detail=""); relaxed = None; break
             if r == z3.sat:
                 if not opaque:
                     res.update(result="refuted", witness=_witness(eng, ob, sol.model()), detail="sat on the unbounded VC"); break
@@ -194,6 +199,8 @@ def solve_one(i):
                 if phase == "full" or not opts.get("refute", True): break
                 continue
             res["detail"] = f"unknown ({sol.reason_unknown()}) at {tmo} ms"
+        if relaxed is not None and res["result"] != "proved":
+            res.update(result="refuted", witness=relaxed["witness"], detail=relaxed["detail"])
     except Exception:
         res.update(result="error", detail=traceback.format_exc()[-1500:])
     res["secs"] = round(time.time() - t0, 3)
